@@ -34,12 +34,12 @@ from pywbem._recorder import TestClientRecorder, LogOperationRecorder
 warnings.simplefilter('ignore')
 logging.raiseExceptions = False     # logging's own error reports (e.g. ASCII-only stream) are not under test
 
-R = Run('46 operation scenarios (all 40 WBEMConnection operations incl. 7 Iter*, InvokeMethod parameter variants, '
-        'pull fallback) x 17 scripted responses (non-ASCII success, 2 CIM errors, 5 parse errors, 3 HTTP errors, '
-        '3 connection errors, bad parameter, closed connection) x observer configurations {api,http,all} x '
-        '{all,paths,summary,None,ints 0..1000} x dest {stderr,ascii-stderr,file,None} x activation {conn,global} x '
-        'TestClientRecorder x recorders enabled/disabled x stats x debug (quick: rotating subset of 61 configs; '
-        'thorough: full 61) + http/api max-length sweep over every byte offset of a reply (quick: around '
+R = Run('50 operation scenarios (all 40 WBEMConnection operations incl. 7 Iter*, InvokeMethod parameter variants, '
+        'class-level and empty results, pull fallback, abandoned iterator) x 20 steps (3 non-ASCII successes, 2 CIM errors, 6 parse errors, 3 HTTP errors, '
+        '3 connection errors, 2 bad parameters, closed connection) x observer configurations {api,http,all} x '
+        '{all,paths,summary,None,ints 0..1000} x dest {stderr,ascii-stderr,file,None,off} x activation {conn,global,copy()} x '
+        'TestClientRecorder x recorders enabled/disabled x stats x debug creds tuple/list (quick: 67 configs, rotating subset per '
+        'operation; thorough: 127 configs, all) + http/api max-length sweep over every byte offset of a reply (quick: around '
         'multi-byte characters) + direct LogOperationRecorder.stage_http_request Authorization masking')
 
 URL = 'http://wbem.example:5988'
@@ -104,7 +104,7 @@ class Scripted(BaseAdapter):
 
 HDR = ('<?xml version="1.0" encoding="utf-8" ?>\n<CIM CIMVERSION="2.0" DTDVERSION="2.0">'
        '<MESSAGE ID="1001" PROTOCOLVERSION="1.0">')
-TRL = '</MESSAGE></CIM>'
+TRL = '</MESSAGE></CIM>\r\n'
 
 
 def imr(name):
@@ -228,6 +228,13 @@ def build_ops():
     a(simple('EnumerateInstanceNames', lambda c: c.EnumerateInstanceNames(CIMClassName('CIM_Foo', namespace=NS)),
              irv(iname('a') + iname('bé')), is_paths(2, None),
              bad=lambda c: c.EnumerateInstanceNames(None)))
+    # empty results (the summary/paths log formats look at the first element)
+    a(Op('EnumerateInstances/empty', lambda c: c.EnumerateInstances('CIM_Foo'), imr('EnumerateInstances'), [irv('')],
+         lambda r: r == [], ['EnumerateInstances'], 'EnumerateInstances', None, ()))
+    a(Op('OpenEnumerateInstancePaths/empty', lambda c: c.OpenEnumerateInstancePaths('CIM_Foo'),
+         imr('OpenEnumerateInstancePaths'), [pullparams(True, None)],
+         lambda r: list(r.paths) == [] and r.eos is True and r.context is None,
+         ['OpenEnumerateInstancePaths'], 'OpenEnumerateInstancePaths', None, ()))
     a(simple('ModifyInstance', lambda c: c.ModifyInstance(NEWINST, IncludeQualifiers=True, PropertyList='Name'),
              '', lambda r: r is None, bad=lambda c: c.ModifyInstance('CIM_Foo')))
     a(simple('CreateInstance', lambda c: c.CreateInstance(NEWINST, namespace='root/other'),
@@ -239,6 +246,16 @@ def build_ops():
     a(simple('Associators', lambda c: c.Associators(PATH, AssocClass='CIM_A', Role='rôle'),
              irv(objwithpath('a') + objwithpath('bé')), is_insts(2),
              bad=lambda c: c.Associators(None)))
+    cpath = ('<CLASSPATH>' + NSPATH + '<CLASSNAME NAME="CIM_Foo"/></CLASSPATH>')
+    a(Op('Associators/class', lambda c: c.Associators('CIM_Foo', IncludeQualifiers=True), imr('Associators'),
+         [irv('<VALUE.OBJECTWITHPATH>' + cpath + CLASS + '</VALUE.OBJECTWITHPATH>')],
+         lambda r: isinstance(r, list) and len(r) == 1 and isinstance(r[0], tuple) and
+         r[0][0] == CIMClassName('CIM_Foo', namespace=NS, host='srv.example') and isinstance(r[0][1], CIMClass),
+         ['Associators'], 'Associators', None, ()))
+    a(Op('ReferenceNames/class', lambda c: c.ReferenceNames(CIMClassName('CIM_Foo', namespace='root/other')),
+         imr('ReferenceNames'), [irv('<OBJECTPATH>' + cpath + '</OBJECTPATH>')],
+         lambda r: r == [CIMClassName('CIM_Foo', namespace=NS, host='srv.example')],
+         ['ReferenceNames'], 'ReferenceNames', None, ()))
     a(simple('AssociatorNames', lambda c: c.AssociatorNames(PATH, ResultClass=CIMClassName('CIM_R')),
              irv('<OBJECTPATH>' + ipath('a') + '</OBJECTPATH><OBJECTPATH>' + ipath('bé') + '</OBJECTPATH>'),
              is_paths(2, 'srv.example'), bad=lambda c: c.AssociatorNames(None)))
@@ -264,7 +281,7 @@ def build_ops():
         'M', 'CIM_Foo', When=datetime.datetime(2020, 2, 29, 12, 0, 0), For=datetime.timedelta(days=1, seconds=5)),
          mr('M'), [mresp], mchk, ['InvokeMethod'], 'InvokeMethod', None, ('py-datetime-arg',)))
     a(simple('ExecQuery', lambda c: c.ExecQuery('WQL', 'select * from CIM_Foo where Name = "é"'),
-             irv('<VALUE.OBJECT>' + inst(S + 'a') + '</VALUE.OBJECT>'), is_insts(1, haspath=False),
+             irv('<VALUE.OBJECT>' + inst(S + 'a') + '</VALUE.OBJECT>'), is_insts(1),
              bad=lambda c: c.ExecQuery(None, 'q')))
     # open / pull / close
     ipaths = ipath('a') + ipath('bé')
@@ -326,7 +343,7 @@ def build_ops():
     a(simple('ModifyClass', lambda c: c.ModifyClass(NEWCLASS), '', lambda r: r is None,
              bad=lambda c: c.ModifyClass('CIM_Foo')))
     a(simple('CreateClass', lambda c: c.CreateClass(NEWCLASS, namespace='root/other'), '', lambda r: r is None,
-             bad=lambda c: c.CreateClass(None)))
+             bad=lambda c: c.CreateClass('CIM_Foo')))
     a(simple('DeleteClass', lambda c: c.DeleteClass(CIMClassName('CIM_Foo')), '', lambda r: r is None,
              bad=lambda c: c.DeleteClass(None)))
     a(simple('EnumerateQualifiers', lambda c: c.EnumerateQualifiers(), irv(QDECL + QDECL.replace('Desc', 'Dosc')),
@@ -341,7 +358,7 @@ def build_ops():
              bad=lambda c: c.DeleteQualifier(None)))
     a(Op('ExportIndication', lambda c: c.ExportIndication(INDICATION), emr('ExportIndication'), [''],
          lambda r: r is None, ['ExportIndication'], 'ExportIndication',
-         lambda c: c.ExportIndication('x'), ('export',)))
+         None, ('export',)))
     # Iter* operations: open (not exhausted) followed by pull (exhausted)
     iters = [
         ('IterEnumerateInstances', lambda c: list(c.IterEnumerateInstances('CIM_Foo', MaxObjectCount=1)),
@@ -393,9 +410,22 @@ def build_ops():
     return ops
 
 
+# arguments of a type the operation rejects and that is not one of the CIM/Python types either
+BADTYPE = {
+    'GetInstance': lambda c: c.GetInstance(PATH, PropertyList={'Name'}),
+    'EnumerateInstances': lambda c: c.EnumerateInstances('CIM_Foo', PropertyList={'Name': 1}.keys()),
+    'EnumerateInstanceNames': lambda c: c.EnumerateInstanceNames(1.5),
+    'InvokeMethod': lambda c: c.InvokeMethod('M', PATH, P1=1.5),
+    'OpenEnumerateInstances': lambda c: c.OpenEnumerateInstances('CIM_Foo', MaxObjectCount=1.5),
+    'PullInstancesWithPath': lambda c: c.PullInstancesWithPath({'ctx', NS}, 1),
+    'EnumerateClasses': lambda c: c.EnumerateClasses(namespace=1.5),
+    'GetClass': lambda c: c.GetClass('CIM_Foo', PropertyList=frozenset(['Name'])),
+}
+
 # response kinds; every kind is applied to every operation (first request of multi-request operations)
-KINDS = ['ok', 'cimerr', 'cimerr-inst', 'badxml', 'badcim', 'wrongname', 'empty', 'http500', 'http401', 'http404',
-         'ctype', 'connerr', 'timeout', 'maxretry', 'badparam', 'ok2', 'badutf8', 'closed']
+OKS = ('ok', 'ok2', 'ok3')
+KINDS = ['ok2', 'ok3', 'ok', 'cimerr', 'cimerr-inst', 'badxml', 'badcim', 'wrongname', 'empty', 'http500', 'http401', 'http404',
+         'ctype', 'connerr', 'timeout', 'maxretry', 'badparam', 'badtype', 'badutf8', 'closed']
 ERRINST = ('<INSTANCE CLASSNAME="CIM_Error"><PROPERTY NAME="Message" TYPE="string"><VALUE>' + S +
            '</VALUE></PROPERTY></INSTANCE>')
 
@@ -406,8 +436,12 @@ def script_for(op, kind):
         return ('reply', 200, 'OK', headers, text.encode('utf-8'))
     first = op.wrap(op.bodies[0])
     rest = [ok(b) for b in op.bodies[1:]]
-    if kind in ('ok', 'ok2'):
-        hdrs = dict(OKH, WBEMServerResponseTime='1234') if kind == 'ok2' else OKH
+    if kind in OKS:
+        hdrs = OKH
+        if kind == 'ok2':
+            hdrs = dict(OKH, WBEMServerResponseTime='1234')
+        elif kind == 'ok3':
+            hdrs = dict(OKH, WBEMServerResponseTime='abc')      # ill-formed optional header
         return [ok(first, hdrs)] + rest
     if kind == 'cimerr':
         return [ok(op.wrap('<ERROR CODE="6" DESCRIPTION="nicht gefunden: ä€ &lt;x&gt;"/>'))]
@@ -442,7 +476,7 @@ def script_for(op, kind):
     if kind == 'maxretry':
         return [('raise', lambda: requests.exceptions.ConnectionError(urllib3.exceptions.MaxRetryError(
             None, '/cimom', urllib3.exceptions.ProtocolError('Connection aborted.'))))]
-    if kind in ('badparam', 'closed'):
+    if kind in ('badparam', 'badtype', 'closed'):
         return []
     raise AssertionError(kind)
 
@@ -467,15 +501,16 @@ EXPECT_EXC = {
     'maxretry': ('ConnectionError', None),
     'closed': ('ConnectionError', lambda e: 'closed' in e.args[0]),
     'badparam': (('TypeError', 'ValueError', 'AttributeError'), None),
+    'badtype': ('TypeError', lambda e: 'toyaml' not in e.args[0]),
 }
 
 
 def plan_for(op, kind):
     """Reference model of the statistics: [(operation name, failed)] for one scenario step."""
-    if kind in ('ok', 'ok2'):
+    if kind in OKS:
         return [(p, False) if isinstance(p, str) else p for p in op.plan]
-    if kind == 'badparam':
-        return [(op.errop, True)]
+    if 'fallback' in op.tags and kind == 'closed':
+        return [('EnumerateInstances', True)]       # the decision against pull operations is sticky
     return [(op.errop, True)]
 
 
@@ -488,7 +523,8 @@ def kinds_for(op):
 
 Cfg = namedtuple('Cfg', 'log tcr rec_enabled stats debug pw')
 Log = namedtuple('Log', 'name dest level act')
-PASSWORDS = ['Zq9_S3cr3t', 'päss wörd:x"\'', 'Pw\\back']
+PASSWORDS = ['Zq9_S3cr3t', 'päss wörd:x"\'', 'Pw\\back', 'Zq9_S3cr3t']
+CREDS_LIST = 3      # index into PASSWORDS: same password, but creds passed as a list [user, password]
 BARE = Cfg(None, False, True, False, False, 0)
 
 
@@ -501,7 +537,7 @@ def build_configs():
     for name in ('api', 'http', 'all'):
         for level in levels:
             t, s, d = others[(i * 3 + 1) % len(others)]
-            cfgs.append(Cfg(Log(name, dests[i % 4], level, ('conn', 'global')[(i // 2) % 2]), t, True, s, d, i % 3))
+            cfgs.append(Cfg(Log(name, dests[i % 4], level, ('conn', 'global', 'copy')[(i // 2) % 3]), t, True, s, d, i % 3))
             i += 1
     # every tcr/stats/debug combination without logging and with full logging
     for t, s, d in others:
@@ -521,6 +557,24 @@ def build_configs():
         cfgs.append(Cfg(Log(('http', 'all')[n % 2], ('stderr', None)[n % 2], n, 'conn'), n % 3 == 0, True, True,
                         n % 2 == 0, i % 3))
         i += 1
+    # logging switched off again; credentials given as a list instead of a tuple
+    for name in ('all', 'http'):
+        cfgs.append(Cfg(Log(name, 'off', 'all', 'conn'), name == 'http', True, True, False, i % 3))
+        i += 1
+    for lg, t in ((None, False), (Log('all', 'stderr', 'all', 'conn'), True), (Log('api', 'file', 'summary', 'global'), False),
+                  (Log('http', 'stderr', 'paths', 'copy'), False)):
+        cfgs.append(Cfg(lg, t, True, False, False, CREDS_LIST))
+    if R.tier == 'thorough':
+        j = 0
+        for name in ('api', 'http', 'all'):
+            for level in levels:
+                for dest in dests:
+                    j += 1
+                    if j % 2:
+                        continue
+                    t, s, d = others[(j * 5 + 2) % len(others)]
+                    cfgs.append(Cfg(Log(name, dest, level, ('global', 'copy', 'conn')[(j // 2) % 3]), t, j % 11 != 0, s, d,
+                                    j % 3))
     seen, out = set(), []
     for c in cfgs:
         if c not in seen and c != BARE:
@@ -549,19 +603,31 @@ class Env:
         self.logfile = None
         self.tcr_fp = None
         self.adapter = Scripted()
+        self.conn_ids = []
         lg = cfg.log
         try:
             if lg is not None and lg.act == 'global':
                 self._configure(lg, True, seq)
-            self.conn = WBEMConnection(URL, (USER, self.pw), stats_enabled=cfg.stats and cfg.pw == 0)
+            creds = [USER, self.pw] if cfg.pw == CREDS_LIST else (USER, self.pw)
+            self.conn = WBEMConnection(URL, creds, use_pull_operations=None,
+                                       stats_enabled=cfg.stats and cfg.pw == 0)
             self.conn.session.mount('http://', self.adapter)
             if cfg.stats:
                 self.conn.stats_enabled = True
-            if lg is not None and lg.act == 'conn':
+            if lg is not None and lg.act in ('conn', 'copy'):
                 self._configure(lg, self.conn, seq)
             if cfg.tcr:
                 self.tcr_fp = io.StringIO()
                 self.conn.add_operation_recorder(TestClientRecorder(self.tcr_fp))
+            if lg is not None and lg.act == 'copy':
+                # the observers travel with WBEMConnection.copy()
+                orig = self.conn
+                self.conn = orig.copy()
+                self.conn.session.mount('http://', self.adapter)
+                self.conn_ids.append(orig.conn_id)
+                orig.close()
+                if cfg.stats:
+                    self.conn.stats_enabled = True
             if lg is not None:
                 for ln in LOGGERS:
                     logger = logging.getLogger(ln)
@@ -578,8 +644,8 @@ class Env:
     def _configure(self, lg, connection, seq):
         kw = {}
         dest = lg.dest
-        if dest in ('stderr', 'stderr-ascii'):
-            if dest == 'stderr':
+        if dest in ('stderr', 'stderr-ascii', 'off'):
+            if dest != 'stderr-ascii':
                 stream = io.StringIO()
             else:
                 stream = io.TextIOWrapper(io.BytesIO(), encoding='ascii', errors='strict')
@@ -590,6 +656,8 @@ class Env:
             self.logfile = os.path.join(TMPDIR, 'log%d.txt' % seq)
             kw['log_filename'] = self.logfile
         configure_logger(lg.name, log_dest=dest, detail_level=lg.level, connection=connection, **kw)
+        if lg.dest == 'off':
+            configure_logger(lg.name, log_dest='off')       # on, then off again: the recorder stays attached
         sys.stderr = REAL_STDERR
 
     def outputs(self):
@@ -627,7 +695,8 @@ class Env:
             logger.propagate = True
         WBEMConnection._reset_logging_config()
         for ln in LOGGERS:
-            logging.Logger.manager.loggerDict.pop('%s.%s' % (ln, self.conn.conn_id), None)
+            for cid in self.conn_ids + [self.conn.conn_id]:
+                logging.Logger.manager.loggerDict.pop('%s.%s' % (ln, cid), None)
         if self.logfile and os.path.exists(self.logfile):
             os.remove(self.logfile)
         if self.conn.session is not None:
@@ -676,24 +745,41 @@ def http_logged_part(cfg, body):
     return body
 
 
+def raised_in(exc):
+    """Names of the functions on the traceback of the exception (who raised it)."""
+    names = set()
+    tb = exc.__traceback__
+    while tb is not None:
+        names.add(tb.tb_frame.f_code.co_name)
+        tb = tb.tb_next
+    return names
+
+
 def classify(cfg, op, kind, served, obs):
     """Id of the known defect explaining an outcome difference, or None."""
     if obs[0] != 'exc':
         return None
     replies = [s[2] for s in served if s[0] == 'reply' and s[1] == 200]
     if obs[1] == 'UnicodeDecodeError':
-        for body in replies:
-            part = http_logged_part(cfg, body)
-            if part is not None and not decodable(part):
-                if decodable(body):
-                    return 'known:http-log-maxlen-splits-utf8-reply'
-                return 'known:http-log-non-utf8-reply-raises-UnicodeDecodeError'
-        if cfg.tcr and cfg.rec_enabled and any(not decodable(b) for b in replies):
+        where = raised_in(obs[3])
+        if 'stage_http_response2' in where:
+            for body in replies:
+                part = http_logged_part(cfg, body)
+                if part is not None and not decodable(part):
+                    if decodable(body):
+                        return 'known:http-log-maxlen-splits-utf8-reply'
+                    return 'known:http-log-non-utf8-reply-raises-UnicodeDecodeError'
+        elif 'record' in where and cfg.tcr and cfg.rec_enabled and any(not decodable(b) for b in replies):
             return 'known:tcr-non-utf8-reply-raises-UnicodeDecodeError'
     if obs[1] == 'UnboundLocalError' and op.name == 'PullInstances' and (cfg.log is not None or cfg.tcr) and \
-            kind not in ('ok', 'ok2'):
+            kind not in OKS:
         # also with disabled recorders: the faulty statement only looks at their presence
         return 'known:PullInstances-failure-with-recorder-raises-UnboundLocalError'
+    if obs[1] == 'TypeError' and kind == 'badtype' and cfg.tcr and cfg.rec_enabled and \
+            'toyaml' in raised_in(obs[3]) and 'TestClientRecorder.toyaml' in obs[3].args[0]:
+        return 'known:tcr-unserializable-argument-replaces-error-with-toyaml-TypeError'
+    if obs[1] == 'TypeError' and kind == 'ok3' and cfg.stats and 'stop_timer' in raised_in(obs[3]):
+        return 'known:stats-non-numeric-server-response-time-raises-TypeError'
     if obs[1] == 'RepresenterError' and cfg.tcr and cfg.rec_enabled and 'py-datetime-arg' in op.tags:
         return 'known:tcr-datetime-param-raises-RepresenterError'
     return None
@@ -710,14 +796,20 @@ def check_password(env, desc):
     for where, text in env.outputs():
         for f in forms:
             if f in text:
-                R.violation('password-in-' + where, password=env.pw, found=f, **desc)
+                if env.cfg.pw == CREDS_LIST and where != 'recorder-file' and "['%s', '%s']" % (USER, f) in text:
+                    # str()/repr() only elide the password of a tuple; the connection line of the log is repr()
+                    R.violation('known:password-shown-when-creds-is-a-list', where=where, creds=[USER, env.pw],
+                                found=f, **desc)
+                else:
+                    R.violation('password-in-' + where, password=env.pw, found=f, **desc)
         if b64 in text:
             R.violation('password-base64-in-' + where, password=env.pw, found=b64, **desc)
 
 
 def desc_of(cfg, op, kind):
     d = dict(operation=op.name, response=kind, stats=cfg.stats, debug=cfg.debug, test_client_recorder=cfg.tcr,
-             recorders_enabled=cfg.rec_enabled)
+             recorders_enabled=cfg.rec_enabled,
+             creds=[USER, PASSWORDS[cfg.pw]] if cfg.pw == CREDS_LIST else (USER, PASSWORDS[cfg.pw]))
     if cfg.log is not None:
         d['configure_logger'] = dict(cfg.log._asdict())
     return d
@@ -729,10 +821,11 @@ def run_sequence(cfg, op, kinds, seq, bare=None):
     conn, ad = env.conn, env.adapter
     model = {}
     tainted = False
+    known_hit = False
     records = []
     try:
         for kind in kinds:
-            if kind == 'badparam' and op.bad is None:
+            if (kind == 'badparam' and op.bad is None) or (kind == 'badtype' and op.name not in BADTYPE):
                 continue
             R.case((cfg, op.name, kind))
             desc = desc_of(cfg, op, kind)
@@ -741,17 +834,19 @@ def run_sequence(cfg, op, kinds, seq, bare=None):
             s0 = len(ad.served)
             if kind == 'closed':
                 conn.close()
-            obs = outcome(op.bad if kind == 'badparam' else op.call, conn)
+            obs = outcome(op.bad if kind == 'badparam' else BADTYPE[op.name] if kind == 'badtype' else op.call, conn)
             seen = ad.seen[n0:]
             served = ad.served[s0:]
-            rec = dict(obs=obs, seen=[(b, {k: v for k, v in h.items() if k != 'Authorization'}) for b, h in seen], raw_req=conn.last_raw_request, raw_reply=conn.last_raw_reply,
+            rec = dict(obs=obs,
+                       # (the Authorization header depends on the password of the configuration; checked below)
+                       seen=[(b, {k: v for k, v in h.items() if k != 'Authorization'}) for b, h in seen],
                        flags=tuple(getattr(conn, '_use_%s_pull_operations' % k) for k in (
                            'enum_inst', 'enum_path', 'ref_inst', 'ref_path', 'assoc_inst', 'assoc_path', 'query')))
             records.append(rec)
             known = None
             if bare is None:
                 # hand-written expectation for the bare configuration
-                if kind in ('ok', 'ok2'):
+                if kind in OKS:
                     if obs[0] != 'ok' or not op.check(obs[2]):
                         R.violation('bare-outcome-unexpected', observed=show(obs), **desc)
                 else:
@@ -765,7 +860,13 @@ def run_sequence(cfg, op, kinds, seq, bare=None):
                     known = classify(cfg, op, kind, served, obs)
                     if known:
                         R.violation(known, observed=show(obs), bare=show(ref['obs']), **desc)
-                        tainted = True
+                        known_hit = True
+                        # a failure raised while the request is in flight is counted as a failed operation
+                        # (so is the remainder of a multi-request operation that was cut short)
+                        tainted = tainted or known.startswith('known:http-log-') or (
+                            known.startswith('known:stats-') and len(plan_for(op, kind)) > 1)
+                    elif ref['obs'][0] == 'ok' and obs[0] == 'ok':
+                        R.violation('observer-changes-result', observed=show(obs), bare=show(ref['obs']), **desc)
                     elif ref['obs'][0] == 'ok':
                         R.violation('observer-turns-success-into-failure', observed=show(obs),
                                     bare=show(ref['obs']), **desc)
@@ -806,8 +907,9 @@ def run_sequence(cfg, op, kinds, seq, bare=None):
                 if obs[0] == 'exc' and isinstance(obs[3], pywbem.ParseError) and kind != 'ctype' and seen:
                     e = obs[3]
                     if e.request_data != conn.last_raw_request or e.response_data != served[-1][2]:
-                        R.violation('parse-error-data-differs-from-bytes-exchanged', request_data=repr(e.request_data)[:100],
-                                    response_data=repr(e.response_data)[:100], **desc)
+                        R.violation('parse-error-data-differs-from-bytes-exchanged',
+                                    request_data=repr(e.request_data)[:100], response_data=repr(e.response_data)[:100],
+                                    **desc)
                 # debug attributes
                 try:
                     lreq, lrep = conn.last_request, conn.last_reply
@@ -829,7 +931,8 @@ def run_sequence(cfg, op, kinds, seq, bare=None):
                 snap = {n: [st.count, st.exception_count] for n, st in conn.statistics.snapshot()}
                 if cfg.stats:
                     if snap != model:
-                        R.violation('statistics-count-differs', observed=snap, expected=model, **desc)
+                        R.violation('statistics-count-differs', observed=snap,
+                                    expected={k: list(v) for k, v in model.items()}, **desc)
                         tainted = True
                     if conn.last_operation_time is None:
                         R.violation('last-operation-time-missing-with-statistics', **desc)
@@ -837,9 +940,13 @@ def run_sequence(cfg, op, kinds, seq, bare=None):
                     R.violation('statistics-recorded-while-disabled', observed=snap, **desc)
         check_password(env, dict(operation=op.name, **({'configure_logger': dict(cfg.log._asdict())} if cfg.log else {}),
                                  test_client_recorder=cfg.tcr))
-        if cfg.log is not None and cfg.rec_enabled and not env.cap.lines:
+        if cfg.log is not None and cfg.log.dest == 'off':
+            if env.cap.lines:
+                R.violation('log-record-although-logging-is-off', operation=op.name,
+                            configure_logger=dict(cfg.log._asdict()))
+        elif cfg.log is not None and cfg.rec_enabled and not env.cap.lines:
             R.violation('logging-enabled-but-no-record', operation=op.name, configure_logger=dict(cfg.log._asdict()))
-        if cfg.tcr and cfg.rec_enabled and not tainted and 'name: ' not in env.tcr_fp.getvalue():
+        if cfg.tcr and cfg.rec_enabled and not known_hit and 'name: ' not in env.tcr_fp.getvalue():
             R.violation('recorder-enabled-but-no-output', operation=op.name)
         if not cfg.rec_enabled and (env.tcr_fp is not None and env.tcr_fp.getvalue()):
             R.violation('disabled-recorder-wrote-output', operation=op.name)
